@@ -108,7 +108,7 @@ def scenarios(tier, seed):
         probes = [[h, kw, kind] for h, kw in VARIANTS if ok_combo(h, "datetime" if kind.startswith("date") else "int")]
         sc.append(one(f"narrow:{kind}", [], probes))
     # 9. ONE helper object applied to columns of different dtypes in turn (a kept dict of summaries): nothing learnt from an earlier column may leak
-    for order in (["floatna", "date", "datetime_s", "int", "floatna"], ["date", "floatna", "datetime", "bool", "date"]):
+    for order in (["floatna", "date", "datetime_s", "int", "floatna"], ["date", "floatna", "datetime", "bool", "date"], ["int", "bool", "int", "float"], ["bool", "int", "floatna", "bool"]):
         probes = [[h, kw, kind] for h, kw in (("min", {}), ("max", {}), ("mode", {}), ("first", {"drop_na": True}), ("nth", {"index": 0, "drop_na": True})) for kind in order]
         sc.append(one(f"reused-helper:{order[0]}-first", [], probes))
     if tier == "thorough":
